@@ -77,7 +77,7 @@ CHECKS = {
         "exploration",
         "runtime monitoring: structural Rc-graph audit at hook H5 right before the parallel section + schedule differential over rayon thread counts and repetitions",
         "For generated projects built to provoke sharing (many unit/property tests over the same list/pair/nested/ADT constants, generic hoisted functions and types) and the dependency-free acceptance projects: at hook H5 every Test's Rc graph is walked (addresses, strong counts); no allocation may be reachable from two tests, every strong count must equal the in-degree inside its own test, no assertion may stay on a unit test. The FinishedTests event (verdicts, budgets, iterations, labels, counterexamples, order within each module) under 2, 4, 16 workers and repeated runs at 16 must equal the single-worker run.",
-        "Trusted: the auditor in harness/src/bin/project-run.rs. `type_info` of fuzzers is exempt (never touched on the worker). Module order in the raw event follows a HashMap and differs per process regardless of threads; results are compared grouped by module, as every reporter shows them. The ThreadSanitizer lane is not part of the registered commands (see DESIGN.md).",
+        "Trusted: the auditor in harness/src/bin/project-run.rs. `type_info` of fuzzers is exempt (never touched on the worker). Module order in the raw event follows a HashMap and differs per process regardless of threads; results are compared grouped by module, as every reporter shows them. The thorough tier adds a ThreadSanitizer lane: the project driver rebuilt with -Zsanitizer=thread -Zbuild-std (std and every dependency instrumented) runs Project::check on the same projects with 8 workers; every report block is a violation.",
         "DESIGN.md §3 C17",
     ),
     "C10": (
